@@ -684,6 +684,50 @@ def near_misses_are_not_equal(col, rng, n):
                     break
 
 
+def equality_follows_the_steps(col, rng):
+    """"equality agrees with the same operation on the tuple of steps": values that are equal but print differently (1, 1.0, True; 0.0,
+    -0.0; 'a' and a str subclass instance) make equal Paths, distinct objects that print alike but are not equal (two separate nested T
+    expressions, two NaNs, objects without __eq__) do not; startswith and slices agree with ==."""
+    class Name(str):
+        pass
+
+    class Opaque:
+        def __repr__(self):
+            return '<opaque>'
+    nan1, nan2 = float('nan'), float('nan')
+    k1, k2 = T['k'], T['k']
+    o1, o2 = Opaque(), Opaque()
+    atoms = [1, 1.0, True, 0, 0.0, -0.0, False, 'a', Name('a'), 2, 2.0, (1, 2), (1.0, 2.0), (True, 2), nan1, nan2, k1, k2, o1, o2, None, 'None', '1', b'a', 1 + 0j,
+             frozenset([1]), frozenset([1.0])]
+    n = 0
+    for a in atoms:
+        for b in atoms:
+            for shape in ('P', 'P-after', '[', '[-after', 'call'):
+                mk = {'P': lambda v: Path('x', v), 'P-after': lambda v: Path(v, 'y'), '[': lambda v: Path(T['x'][v]), '[-after': lambda v: Path(T[v].y),
+                      'call': lambda v: Path(T.f(v, kw=v))}[shape]
+                if shape in ('P', 'P-after') and isinstance(a, type(T)) != isinstance(b, type(T)):
+                    continue
+                pa, pb = call(mk, a), call(mk, b)
+                if not (pa.ok and pb.ok):
+                    continue
+                pa, pb = pa.value, pb.value
+                want = call(lambda: pa.path_t.__ops__ == pb.path_t.__ops__)
+                got, got_ne = call(lambda: pa == pb), call(lambda: pa != pb)
+                n += 1
+                col.count('equality_pairs_compared')
+                col.case(('equality-follows-steps', shape, type(a).__name__, type(b).__name__), True)
+                if not (want.ok and got.ok and got_ne.ok) or got.value is not want.value or got_ne.value is not (not want.value):
+                    col.violation('C18/path-eq-disagrees-with-the-steps:%s' % ('equal-values-unequal-paths' if want.ok and want.value else 'unequal-values-equal-paths'),
+                                  '%r == %r gives %r (!= gives %r), their tuples of steps compare %r (arguments %r of %s and %r of %s)'
+                                  % (pa, pb, got, got_ne, want, a, type(a).__name__, b, type(b).__name__), None)
+                    continue
+                # a path starts with an equal path, and the slice of everything is an equal path
+                if want.ok and want.value:
+                    sw, sl = call(lambda: pa.startswith(pb)), call(lambda: pa[:] == pb)
+                    if not (sw.ok and sw.value is True and sl.ok and sl.value is True):
+                        col.violation('C18/path-eq-disagrees-with-startswith-or-slices', '%r == %r, but startswith gives %r and the full slice compares %r' % (pa, pb, sw, sl), None)
+
+
 def systematic(col, rng):
     """every literal kind alone under each root and position"""
     lits = []
@@ -708,6 +752,14 @@ def systematic(col, rng):
                     check_roundtrip(col, mk(), '%s %s %s' % (rn, fk, k), (rn, fk, k))
     for txt in ['a', 'a.b', 'a.*.b', '**', '*.*', 'a.**.b.*', '0.1', '']:
         check_roundtrip(col, Path.from_text(txt), 'from_text %r' % txt, ('from_text', txt))
+    # strings and attribute names that read like the roots are ordinary strings / names
+    for nm in ('T', 'S', 'A', 'Path', 'T.a', 'S.x'):
+        forms = [('[', T[nm]), ('.[', T.a[nm]), ('(', T.f(nm)), ('(kw', T.f(k=nm)), ('P', Path(nm)), ('PP', Path('a', nm, 'z')), ('S[', S[nm]), ('tuple[', T[(nm, 1)]),
+                 ('(list', T.f([nm, {'k': nm}]))]
+        if nm.isidentifier():
+            forms += [('.', getattr(T, nm)), ('..', getattr(getattr(T, nm), 'rows')), ('S.', getattr(S, nm)), ('A.', getattr(A, nm))]
+        for fk, x in forms:
+            check_roundtrip(col, x, 'name-like-a-root %s %r' % (fk, nm), ('rootname', fk, nm))
     for x, d in [(T, 'T'), (S, 'S'), (A.a, 'A.a'), (Path(), 'Path()'), (T.__star__(), 'star'),
                  (T.a.__starstar__().b, 'starstar'), (S(k=1), 'S(k=1)'), (S(j='lit', k=T.a), 'S(k=T.a)')]:
         check_roundtrip(col, x, d, ('special', d))
@@ -735,6 +787,7 @@ def run(ctx):
     col.require('pickle_roundtrips', 50)
     if ctx.shard == 0:
         systematic(col, rng)
+        equality_follows_the_steps(col, rng)
     split_law_along_valid_paths(col, rng, ctx.n(25, 150))
     col.require('split_evaluations_along_valid_paths', 500)
     near_misses_are_not_equal(col, rng, ctx.n(400, 3000))
